@@ -15,6 +15,7 @@ INVARIANT C03_ShutdownQuiescent
 INVARIANT C03_StallIsReal
 INVARIANT C04_ReleasedWithinLimit
 INVARIANT C04_CachedLimitNotAhead
+INVARIANT C04_MaxFutCacheNotAhead
 INVARIANT C05_LimitRespected
 INVARIANT C05_QueuedInOwnQueue
 INVARIANT C07_PoolWithinBounds
@@ -24,3 +25,5 @@ INVARIANT C11_RetainedOnlyIfIncomplete
 INVARIANT C31_NoOverlap
 INVARIANT C26_QueuedFlagMatchesQueue
 PROPERTY C09_Lifecycle
+PROPERTY C04_ReleaseStep
+PROPERTY C04_ReleaseWithinFormula
